@@ -300,6 +300,16 @@ class DocGen:
                     self._twin = None
                     if tw_leaf not in leaves:
                         fam.append(Entry("attrpath", [nm, tw_leaf], value=tw_val))
+                # mixed root: the same root also written as an explicit set (legal Nix: the
+                # definitions merge), before or after its dotted bindings
+                if r.random() < 0.10 and depth < self.depth:
+                    self.n += 1
+                    sub = SetNode(entries=[Entry("plain", [f"own{self.n}"], value=self.value())])
+                    mixed = Entry("nested", [nm], sub=sub)
+                    if r.random() < 0.5:
+                        fam.insert(0, mixed)
+                    else:
+                        fam.append(mixed)
                 for e in fam[:-1]:
                     self.decorate(e, first=not s.entries)
                     s.entries.append(e)
@@ -374,7 +384,7 @@ class DocGen:
                 d.wrappers.append(("with", r.choice(["pkgs", "lib", "pkgs", "lib", "pkgs", "lib", "pkgs.lib"])))
             elif part == "assert":
                 d.wrappers.append(("assert", r.choice(["lib.x", "pkgs != null", "true"])))
-        nl = layers if layers is not None else r.choice([0, 0, 0, 1, 1, 2])
+        nl = layers if layers is not None else r.choice([0, 0, 0, 0, 1, 1, 1, 2, 2, 3, 4])
         # let layers sit directly around the target set (after every other wrapper) unless the
         # innermost wrapper is a call head, where a bare let is not valid Nix
         if nl and not (d.wrappers and d.wrappers[-1][0] == "call"):
